@@ -90,6 +90,11 @@ func eqCMS(redis bool) eqKind {
 			return cmsMem{s}, s.Import(doc)
 		},
 		impInto: func(h interface{}, doc []byte) error {
+			if m, ok := h.(*cmsMulti); ok {
+				// the other handles of the wrapper stay attached to the keys the sketch had before
+				// (Import does not rewrite the metadata hash, finding D25): only this one goes on
+				m.hs, m.frozen = m.hs[:1], true
+			}
 			if u := cmsUnder(h.(cmsHandle)); u != nil {
 				return u.Import(doc, true)
 			}
@@ -144,6 +149,9 @@ func eqHLL(redis bool) eqKind {
 			return hllMem{h}, h.Import(doc)
 		},
 		impInto: func(h interface{}, doc []byte) error {
+			if m, ok := h.(*hllMulti); ok {
+				m.hs, m.frozen = m.hs[:1], true
+			}
 			if u := hllUnder(h.(hllHandle)); u != nil {
 				return u.Import(doc, true)
 			}
@@ -276,9 +284,10 @@ func eqCuckoo(redis bool) eqKind {
 		{n: 2, b: 4, fpl: 4, retries: 10},
 		{n: 2, b: 4, fpl: 3, retries: 11},
 		{n: 2, b: 12, fpl: 3, retries: 10}, // two-digit bucket size
+		{n: 2, b: 4, fpl: 3, retries: 0},   // a zero that is a value, not an omission
 	}
 	return eqKind{
-		name: name, redis: redis, nparams: 5,
+		name: name, redis: redis, nparams: 6,
 		build: func(c *Ctx, v int) interface{} {
 			cfg := cfgs[v]
 			cfg.redis = redis
@@ -360,7 +369,12 @@ func eqCuckoo(redis bool) eqKind {
 
 // ---- Top-K -------------------------------------------------------------------------------------
 
-func eqTopK(redis bool) eqKind {
+func eqTopK(redis bool) eqKind { return eqTopKFam(redis, 0) }
+
+// eqTopKRates: error rate and accuracy that are computed values (no short decimal text)
+func eqTopKRates(redis bool) eqKind { return eqTopKFam(redis, 1) }
+
+func eqTopKFam(redis bool, fam int) eqKind {
 	name := "topk.mem"
 	if redis {
 		name = "topk.redis"
@@ -370,6 +384,9 @@ func eqTopK(redis bool) eqKind {
 		er, acc float64
 	}
 	cfgs := []cfg{{3, 0.5, 0.2}, {4, 0.5, 0.2}, {3, 0.6, 0.2}, {3, 0.5, 0.25}}
+	if fam == 1 {
+		cfgs = []cfg{{3, 1.0 / 3, 0.7 / 3}, {4, 1.0 / 3, 0.7 / 3}, {3, 1.0 / 3 * (1 + 1e-9), 0.7 / 3}, {3, 1.0 / 3, 0.7 / 3 * (1 - 1e-9)}}
+	}
 	return eqKind{
 		name: name, redis: redis, nparams: 3,
 		build: func(c *Ctx, v int) interface{} { return newTopK(cfgs[v].k, cfgs[v].er, cfgs[v].acc, redis) },
@@ -391,6 +408,9 @@ func eqTopK(redis bool) eqKind {
 			return topkMem{t}, t.Import(doc)
 		},
 		impInto: func(h interface{}, doc []byte) error {
+			if m, ok := h.(*topkMulti); ok {
+				m.hs, m.frozen = m.hs[:1], true
+			}
 			if u := topkUnder(h); u != nil {
 				return u.Import(doc, true)
 			}
@@ -428,7 +448,7 @@ func eqTopK(redis bool) eqKind {
 
 func suiteEquals(c *Ctx) {
 	c.rep.Rule = "case = a pair of structures of one kind (10 kinds = 5 structures x 2 backends): identical histories / one extra operation / one stored entry mutated at first, middle, last position through a crafted Import / one parameter changed; both argument orders; non-trivial = pair with non-empty payload that is not identical; distinct by (kind, relation, history)"
-	kinds := []eqKind{eqCMS(false), eqCMS(true), eqHLL(false), eqHLL(true), eqBloom(false), eqBloom(true), eqCuckoo(false), eqCuckoo(true), eqTopK(false), eqTopK(true)}
+	kinds := []eqKind{eqCMS(false), eqCMS(true), eqHLL(false), eqHLL(true), eqBloom(false), eqBloom(true), eqCuckoo(false), eqCuckoo(true), eqTopK(false), eqTopK(true), eqTopKRates(false), eqTopKRates(true)}
 	rounds := c.scale(12, 120)
 	for r := 0; r < rounds; r++ {
 		for _, k := range kinds {
@@ -437,10 +457,49 @@ func suiteEquals(c *Ctx) {
 	}
 	equalsCuckooHoles(c, false)
 	equalsCuckooHoles(c, true)
+	equalsNumericNames(c, false)
+	equalsNumericNames(c, true)
 	for r := 0; r < c.scale(6, 40); r++ {
 		for _, redis := range []bool{false, true} {
 			equalsBuiltByMerge(c, eqHLL(redis))
 			equalsBuiltByMerge(c, eqCMS(redis))
+		}
+	}
+}
+
+// equalsNumericNames: element names are byte strings.  Two names that are different spellings of one
+// number ("3" / "003" / "3.0" / "+3" / "0x3" / "3e0") and share their sketch cell, inserted in the
+// two possible orders into k = 1 structures: identical sketches, different tracked element.
+func equalsNumericNames(c *Ctx, redis bool) {
+	k := eqTopK(redis)
+	rows, cols := topkDims(0.1, 0.9)
+	found := 0
+	for n := 0; n < 400 && found < 3; n++ {
+		forms := []string{fmt.Sprint(n), fmt.Sprintf("0%d", n), fmt.Sprintf("00%d", n), fmt.Sprintf("%d.0", n), fmt.Sprintf("+%d", n), fmt.Sprintf("0x%x", n), fmt.Sprintf("%de0", n)}
+		byPos := map[string]string{}
+		for _, f := range forms {
+			p, err := learnCMSPos(rows, cols, false, []byte(f))
+			if err != nil {
+				return
+			}
+			key := fmt.Sprint(p)
+			g, dup := byPos[key]
+			if !dup {
+				byPos[key] = f
+				continue
+			}
+			a, b := newTopK(1, 0.1, 0.9, redis), newTopK(1, 0.1, 0.9, redis)
+			if a == nil || b == nil {
+				return
+			}
+			a.Insert([]byte(f), 1)
+			a.Insert([]byte(g), 1)
+			b.Insert([]byte(g), 1)
+			b.Insert([]byte(f), 1)
+			eqCheck(c, k, a, b, "numeric-spellings", nil)
+			c.branch("numeric-spellings")
+			found++
+			break
 		}
 	}
 }
@@ -559,6 +618,22 @@ func equalsKind(c *Ctx, k eqKind) {
 				c.fail([]string{"C17"}, k.name+"-equal-but-answers-differ", fmt.Sprintf("%s: two structures with the same history of operations answer differently: %.150s vs %.150s", k.name, qa, qb), map[string]interface{}{"kind": k.name, "history": hist, "more": more})
 			}
 			hist = append(append([]int(nil), hist...), more...)
+		}
+	}
+	// a handle that has been compared before (b2 above) takes over a's content by an Import in
+	// place: whatever it remembers from the earlier comparison describes keys it no longer uses
+	if k.impInto != nil {
+		if doc2, err := k.export(a); err == nil {
+			var ierr error
+			if res := safely(func() { ierr = k.impInto(b2, doc2) }); !res.panicked && ierr == nil {
+				check("reimported-in-place", b2)
+				if e := k.build(c, 0); e != nil {
+					a0 := a
+					a = e
+					check("reimported-in-place-vs-empty", b2)
+					a = a0
+				}
+			}
 		}
 	}
 	// one parameter changed, same history
